@@ -89,6 +89,13 @@ def raw_tree(item):
         return ("edges", rows) if item.ndim == 2 and item.shape[1] == 2 else ("strs", rows)
     # dtype of the DATASET (reading a 0-d dataset yields a numpy scalar, which is always in native byte order)
     a = np.asarray(item[()]).astype(item.dtype)
+    if a.dtype.kind == "c":
+        # complex numbers are stored as an HDF5 compound; its member names are part of the layout (h5py's convention: r, i) and
+        # are read through the low-level API, independently of this process's h5py configuration
+        t = item.id.get_type()
+        names = tuple(t.get_member_name(i) for i in range(t.get_nmembers()))
+        if names != (b"r", b"i"):
+            return ("num", f"compound{names}", tuple(a.shape), F.canon_bytes(a))
     return ("num", item.dtype.str, tuple(a.shape), F.canon_bytes(a))
 
 
